@@ -25,6 +25,7 @@ type EntrySpec struct {
 	Tiers           map[string]map[string]int `json:"tiers"`
 	ExpectViolation string                    `json:"expect_violation,omitempty"` // reachability twin: this label must be violated
 	MaxPaths        int                       `json:"max_paths,omitempty"`
+	MaxSteps        int64                     `json:"max_steps,omitempty"` // instruction budget per path (default 50M)
 	TimeoutS        int                       `json:"timeout_s,omitempty"`
 	NoValidate      bool                      `json:"no_validate,omitempty"`
 	Covers          []string                  `json:"covers,omitempty"` // cover goals that must be met
@@ -441,6 +442,9 @@ func cmdCheck(args []string) {
 		redirectsForEntry := cfg.Redirects
 		cfg.Params = params
 		cfg.MaxPaths = e.MaxPaths
+		if e.MaxSteps > 0 {
+			cfg.MaxSteps = e.MaxSteps
+		}
 		if *maxPathsFlag > 0 {
 			cfg.MaxPaths = *maxPathsFlag
 		}
